@@ -41,40 +41,6 @@ theorem C20_vol_offset_overflow (out : Bytes) (files : List InFile) (fs : Fs)
   have := (offsFit_iff _ _ _).mp g.fit k (by omega)
   simp only [blockOffset, uint32Max] at *; omega
 
-/-- all the conditions under which `CreateArchive` must succeed, in ℕ -/
-structure Fits (out : Bytes) (files : List InFile) : Prop where
-  nodup : NoDupCI nameOf files
-  small : ∀ f ∈ files, f.content.len < 2147483648
-  header : Spec.headerLen (descOf (sortCI nameOf files)) < 2147483648
-  offsets : ∀ k, k < files.length → blockOffset (sortCI nameOf files) k ≤ 4294967295
-  notSelf : ∀ f ∈ files, Path.pathsAreEqual out f.path = false
-  outNonempty : out ≠ []
-
-theorem Fits.good {out : Bytes} {files : List InFile} (h : Fits out files) : Good out (sortCI nameOf files) where
-  nodup := by
-    cases hd : hasAdjacentDup ((sortCI nameOf files).map nameOf)
-    · rfl
-    · exact absurd h.nodup ((adjDup_iff files).mp hd)
-  small := by
-    intro f hf
-    have := h.small f ((sortCI_perm nameOf files).mem_iff.mp hf)
-    simp only [int32Max]; omega
-  header := h.header
-  fit := by
-    rw [offsFit_iff]
-    intro k hk
-    have hl : (sortCI nameOf files).length = files.length := (sortCI_perm nameOf files).length_eq
-    have := h.offsets k (by omega)
-    simp only [blockOffset, uint32Max] at *; omega
-  notSelf := by
-    rw [List.any_eq_false]
-    intro f hf
-    rw [h.notSelf f ((sortCI_perm nameOf files).mem_iff.mp hf)]; simp
-  outNonempty := by
-    cases hout : out with
-    | nil => exact absurd hout h.outNonempty
-    | cons _ _ => rfl
-
 /-- **converse (non-vacuity of the refusals): just below every limit the archive is written**, and it is the reference
     encoding of the sorted inputs -/
 theorem C20_vol_fits_succeeds (out : Bytes) (files : List InFile) (fs : Fs) (h : Fits out files) :
